@@ -1192,8 +1192,7 @@ yin_parse_value_pos(struct lysp_yin_ctx *ctx, enum ly_stmt parent_stmt, struct l
 
     LY_CHECK_GOTO(ret = yin_parse_content(ctx, subelems, ly_sizeofarray(subelems), enm, parent_stmt, NULL, &enm->exts), cleanup);
 
-    /* store extension instance array (no realloc anymore) to find the plugin records and finish parsing */
-    LY_CHECK_GOTO(ret = yin_unres_exts_add(ctx, enm->exts), cleanup);
+    /* the extension instance array belongs to the enum/bit, it may still grow and is stored when that statement is finished */
 
 cleanup:
     lydict_remove(ctx->xmlctx->ctx, temp_val);
